@@ -11,3 +11,20 @@ func specDeclaredPayloadMode(v string) bool {
 		v == "STREAMING-AWS4-HMAC-SHA256-PAYLOAD" || v == "STREAMING-AWS4-HMAC-SHA256-PAYLOAD-TRAILER" ||
 		v == "STREAMING-AWS4-ECDSA-P256-SHA256-PAYLOAD" || v == "STREAMING-AWS4-ECDSA-P256-SHA256-PAYLOAD-TRAILER"
 }
+
+// ---- C30: aws-chunked framing modes (from the S3 streaming upload documentation) ----
+
+// specHasTrailer: the declared mode announces a checksum trailer after the final chunk.
+func specHasTrailer(mode string) bool {
+	return mode == "STREAMING-UNSIGNED-PAYLOAD-TRAILER" || mode == "STREAMING-AWS4-HMAC-SHA256-PAYLOAD-TRAILER" || mode == "STREAMING-AWS4-ECDSA-P256-SHA256-PAYLOAD-TRAILER"
+}
+
+// specSignedTrailer: the trailer itself is signed (x-amz-trailer-signature must verify).
+func specSignedTrailer(mode string) bool {
+	return mode == "STREAMING-AWS4-HMAC-SHA256-PAYLOAD-TRAILER" || mode == "STREAMING-AWS4-ECDSA-P256-SHA256-PAYLOAD-TRAILER"
+}
+
+// specUnsignedChunks: the chunks carry no chunk signatures.
+func specUnsignedChunks(mode string) bool {
+	return mode == "STREAMING-UNSIGNED-PAYLOAD" || mode == "STREAMING-UNSIGNED-PAYLOAD-TRAILER"
+}
